@@ -61,13 +61,30 @@ def inner_build(spec, env):
         return AfterPreprocessing(f, IsInstance(EXCS[spec[1]]))
     if spec[0] == "always":
         return Always()
+    if spec[0] == "empty_never":
+        return EmptyNever()
     return Never()
+
+
+class EmptyNever:
+    """A user-defined matcher that is falsy (a list-like 'matches any of these' over no alternatives): it matches
+    nothing, and it is still the matcher that was asked for."""
+
+    def __len__(self):
+        return 0
+
+    def __str__(self):
+        return "AnyOf()"
+
+    def match(self, value):
+        from testtools.matchers import Mismatch
+        return Mismatch("no alternative given")
 
 
 def inner_sem(spec, state, env):
     if spec[0] == "always":
         return True
-    if spec[0] == "never":
+    if spec[0] in ("never", "empty_never"):
         return False
     if spec[0] == "value":
         v = state[1]
@@ -354,7 +371,7 @@ INITS.append({"state": "failure", "exc": "ValueError", "callbacks_before": 3})
 INITS.append({"state": "failure", "exc": "ValueError", "how": "c_callable"})
 INITS.append({"state": "failure", "exc": "KeyError", "how": "never_raised"})
 
-INNER = [["always"], ["never"], ["value", ["Equals", 3]], ["value", ["LessThan", 2]], ["failure_is", "ValueError"],
+INNER = [["always"], ["never"], ["empty_never"], ["value", ["Equals", 3]], ["value", ["LessThan", 2]], ["failure_is", "ValueError"],
          ["failure_is", "KeyError"]]
 OPS = [["match", "no_result"], ["add_callback"], ["add_transform"], ["extract"], ["fire", 3], ["fail", "KeyError"]]
 for s in INNER:
